@@ -110,7 +110,15 @@ pub fn generate(seed: u64, idx: u64) -> Scenario {
             };
             let e = if rng.chance(20) {
                 // the whole text replaced by a change without range
-                Edit { range: None, text: if rng.chance(500) { gen::document(&mut rng, kind) } else { format!("{cur} ") } }
+                Edit {
+                    range: None,
+                    text: match rng.below(4) {
+                        0 | 1 => gen::document(&mut rng, kind),
+                        2 => format!("{cur} "),
+                        // the same text again (a client re-synchronising)
+                        _ => cur.clone(),
+                    },
+                }
             } else {
                 gen::to_lsp_edit(&cur, r, repl)
             };
